@@ -92,6 +92,10 @@ func (v DenseReal32Vector) SET(w DenseReal32Vector) {
   }
 }
 func (v DenseReal32Vector) SLICE(i, j int) DenseReal32Vector {
+  // do not expose elements beyond the end of a sub-slice
+  if j > len(v) {
+    panic("index out of bounds")
+  }
   return v[i:j]
 }
 func (v DenseReal32Vector) APPEND(w DenseReal32Vector) DenseReal32Vector {
@@ -142,7 +146,7 @@ func (v DenseReal32Vector) ReverseOrder() {
   }
 }
 func (v DenseReal32Vector) Slice(i, j int) Vector {
-  return v[i:j]
+  return v.SLICE(i, j)
 }
 func (v DenseReal32Vector) Swap(i, j int) {
   v[i], v[j] = v[j], v[i]
@@ -205,7 +209,7 @@ func (v DenseReal32Vector) ConstAt(i int) ConstScalar {
   return v[i]
 }
 func (v DenseReal32Vector) ConstSlice(i, j int) ConstVector {
-  return v[i:j]
+  return v.SLICE(i, j)
 }
 func (v DenseReal32Vector) AsConstMatrix(n, m int) ConstMatrix {
   return v.ToDenseReal32Matrix(n, m)
@@ -219,7 +223,7 @@ func (v DenseReal32Vector) MagicAt(i int) MagicScalar {
   return v.AT(i)
 }
 func (v DenseReal32Vector) MagicSlice(i, j int) MagicVector {
-  return v[i:j]
+  return v.SLICE(i, j)
 }
 func (v DenseReal32Vector) ResetDerivatives() {
   for i := 0; i < len(v); i++ {
